@@ -7,16 +7,17 @@
 #include <errno.h>
 #include "venv.h"
 
-static __thread venv_stream vs = { .key = 0x243f6a8885a308d3ULL, .fail_at = -1, .fail_from = -1 };
+static __thread venv_stream vs = { .key = 0x243f6a8885a308d3ULL, .fail_at = -1, .fail_from = -1, .ff_at = -1 };
 __thread int venv_in_ref = 0;
 static time_t vnow = VENV_NOW;
 void (*venv_fail_hook)(void) = 0;   /* called (in the failing thread) when a scripted entropy failure is delivered */
 
 venv_stream *venv_cur(void) { return &vs; }
-void venv_reset(uint64_t key) { memset(&vs, 0, sizeof vs); vs.key = key; vs.fail_at = -1; vs.fail_from = -1; }
+void venv_reset(uint64_t key) { memset(&vs, 0, sizeof vs); vs.key = key; vs.fail_at = -1; vs.fail_from = -1; vs.ff_at = -1; }
 void venv_script(const uint8_t *b, size_t n) { vs.script = b; vs.scriptlen = n; vs.scriptpos = 0; }
 void venv_fail_at(long i) { vs.fail_at = i; }
 void venv_fail_from(long i) { vs.fail_from = i; }
+void venv_ff_at(long i) { vs.ff_at = i; }
 void venv_set_time(time_t t) { vnow = t; }
 time_t venv_get_time(void) { return vnow; }
 
@@ -32,6 +33,7 @@ int getentropy(void *buf, size_t len)
 	long idx = vs.draws++;
 	if (idx == vs.fail_at || (vs.fail_from >= 0 && idx >= vs.fail_from)) { vs.failed++; if (venv_fail_hook) venv_fail_hook(); errno = EIO; return -1; }
 	for (size_t i = 0; i < len; i++) {
+		if (idx == vs.ff_at) { o[i] = 0xff; continue; }
 		if (vs.scriptpos < vs.scriptlen) o[i] = vs.script[vs.scriptpos++];
 		else { uint64_t w = mix(vs.key ^ mix(vs.ctr >> 3)); o[i] = (uint8_t)(w >> (8 * (vs.ctr & 7))); vs.ctr++; }
 	}
